@@ -8,5 +8,5 @@ PROP = dict(
     trusted_base=['z3 5.1 / cvc5 1.0.3', 'pyvc symbolic executor and its encoding of Python (DESIGN.md section 2.3)', 'CPython 3.12, PLY 3.11 (A-PLY)'],
     manifest=dict(text='Proof: Class.__getattr__/__setattr__/__delattr__, MetaClass.attribute_type and MetaModel.find_metaclass are proved, for every declared attribute list, every spelling and every stored dictionary, to address the first declared spelling and to change exactly that one stored value; the read-after-write sentence is a lemma over these contracts. Bounded: all histories of <=4 attribute writes/reads/deletes/constructor keywords under independently chosen spellings on plain, identifying and referential attributes, with relate/unrelate, serialisation and where_eq observation; class-name spellings.',
                   note='CPython attribute lookup order (PY-6).',
-                  technique='contract-based deductive verification (pyvc) + bounded stand-in: run-time contracts on the real functions driven by exhaustive small-scope enumeration (labelled bounded, never counted as proved)'),
+                  technique="contract-based deductive verification: sidecar contracts on the real functions, verification conditions generated from the current source of /repo on every run by pyvc (Python AST -> z3/cvc5), every obligation discharged function by function; bounded stand-in (run-time contracts on the real functions driven by small-scope enumeration; labelled bounded, never counted as proved) for the functions outside the verifier's reach, reported separately"),
 )
